@@ -30,6 +30,7 @@ type c19Inv struct {
 	OptShape  string          `json:"opt_shape"`   // order/spelling/repetition pattern
 	Family    string          `json:"family"`      // base | sweep | multi
 	RefKey    string          `json:"-"`
+	HasLink   bool            `json:"has_link,omitempty"`
 }
 
 var extOf = map[string]string{"bash": "sh", "batch": "bat"}
@@ -180,7 +181,16 @@ func c19Gen(r *Run, rng *gen.Rng, corpus []string) *c19Inv {
 	if rng.Chance(35) {
 		for _, t := range []string{"bash", "batch"} {
 			if rng.Chance(60) {
-				files = append(files, simrt.FileSpec{Path: path.Join(outAbs, stem+"."+extOf[t]), Data: []byte("OLD OUTPUT " + t + "\n")})
+				p := path.Join(outAbs, stem+"."+extOf[t])
+				if rng.Chance(30) {
+					// an older output that is a symbolic link: to the other target's output, to the
+					// input, to an unrelated file, to nothing, to a directory
+					other := map[string]string{"bash": "bat", "batch": "sh"}[t]
+					files = append(files, simrt.FileSpec{Path: p, Link: rng.Pick([]string{stem + "." + other, path.Join(mount, main), "unrelated.txt", "nowhere", ".", "../" + path.Base(outAbs) + "/unrelated.txt"})})
+					inv.HasLink = true
+				} else {
+					files = append(files, simrt.FileSpec{Path: p, Data: []byte("OLD OUTPUT " + t + "\n")})
+				}
 			}
 		}
 		files = append(files, simrt.FileSpec{Path: path.Join(outAbs, "unrelated.txt"), Data: []byte("keep me\n")})
@@ -404,6 +414,44 @@ func finalImage(j []simrt.TraceEv) map[string]*simrt.TraceEv {
 	return m
 }
 
+// stateOf describes what a path looks like in an image: "absent", "dir",
+// "file:<bytes>" or "link:<target>=><what reading through it yields>".
+func stateOf(get func(string) (kind string, data string, ok bool), p string) string {
+	kind, data, ok := get(p)
+	if !ok || kind == "absent" {
+		return "absent"
+	}
+	switch kind {
+	case "dir":
+		return "dir"
+	case "link":
+		return "link:" + data + "=>" + readThrough(get, p, 0)
+	}
+	return "file:" + data
+}
+
+// readThrough returns the bytes a reader of p gets (following symbolic links), or a marker.
+func readThrough(get func(string) (string, string, bool), p string, hops int) string {
+	if hops > 10 {
+		return "<loop>"
+	}
+	kind, data, ok := get(p)
+	if !ok || kind == "absent" {
+		return "<absent>"
+	}
+	switch kind {
+	case "dir":
+		return "<dir>"
+	case "link":
+		t := data
+		if !path.IsAbs(t) {
+			t = path.Join(path.Dir(p), t)
+		}
+		return readThrough(get, path.Clean(t), hops+1)
+	}
+	return data
+}
+
 func absJoin(cwd, p string) string {
 	if path.IsAbs(p) {
 		return path.Clean(p)
@@ -459,17 +507,41 @@ func c19Judge(inv *c19Inv, res *TshResult, refs map[string]*c19Ref, st *c19Stats
 	outDir := absJoin(inv.Spec.Cwd, inv.OutArg)
 	base := path.Base(inv.InArg)
 	stem := base[:len(base)-len(path.Ext(base))]
-	state := func(p string) (exists bool, data string, dir bool) {
+	getFinal := func(p string) (string, string, bool) {
 		if d := final[p]; d != nil {
-			return d.Res != "absent", string(d.Data), d.Res == "dir"
+			return d.Res, string(d.Data), true
 		}
-		return false, "", false
+		return "absent", "", false
 	}
-	preState := func(p string) (bool, string) {
-		if f := pre[p]; f != nil && !f.Dir {
-			return true, string(f.Data)
+	getPre := func(p string) (string, string, bool) {
+		if f := pre[p]; f != nil {
+			switch {
+			case f.Dir:
+				return "dir", "", true
+			case f.Link != "":
+				return "link", f.Link, true
+			}
+			return "file", string(f.Data), true
 		}
-		return false, ""
+		// implicit parent directories of listed files
+		for q := range pre {
+			if strings.HasPrefix(q, p+"/") {
+				return "dir", "", true
+			}
+		}
+		return "absent", "", false
+	}
+	// what a reader of the output path gets (symbolic links are followed)
+	state := func(p string) (exists bool, data string, dir bool) {
+		r := readThrough(getFinal, p, 0)
+		switch r {
+		case "<absent>", "<loop>":
+			k, _, _ := getFinal(p)
+			return k == "link", "", false
+		case "<dir>":
+			return true, "", true
+		}
+		return true, r, false
 	}
 	if res.Exit == 0 {
 		// clause 4: invalid options or a rejected target must not exit 0
@@ -512,11 +584,10 @@ func c19Judge(inv *c19Inv, res *TshResult, refs map[string]*c19Ref, st *c19Stats
 	// clause 3: each requested target's file is as before or exactly the library's output
 	for _, t := range uniq(inv.Targets) {
 		p := path.Join(outDir, stem+"."+extOf[t])
-		ex, data, dir := state(p)
-		pex, pdata := preState(p)
+		ex, data, _ := state(p)
+		pex := stateOf(getPre, p) != "absent"
 		ref := refs[inv.refKey(t)]
-		same := ex == pex && (!ex || data == pdata) && !dir
-		if same {
+		if stateOf(getFinal, p) == stateOf(getPre, p) {
 			continue
 		}
 		if ref != nil && ref.Accepted && ex && data == string(ref.Script) {
@@ -704,6 +775,10 @@ func c19Probes(st *c19Stats, inv *c19Inv, res *TshResult, refs map[string]*c19Re
 	for _, f := range inv.Spec.Files {
 		if strings.HasPrefix(string(f.Data), "OLD OUTPUT") {
 			st.probes["preexisting_output"]++
+			break
+		}
+		if f.Link != "" {
+			st.probes["preexisting_output_is_symlink"]++
 			break
 		}
 	}
